@@ -11,6 +11,7 @@ empty !rec(int n) { if (n <= 0) { return; } write('r'); preempt { write('p'); re
 empty !deep(int v) { int[] loc = [v, v]; write('{'); !df(loc[1]); write('}'); }
 empty @y(int v) { write('y'); write(v); try { !truth_is_defeat(v == 1); write('Y'); } undo { write('U'); } }
 int f(int x) { g += 1; write('f'); write(x); return x * 2 + g; }
+int !val(int v) { write('v'); !truth_is_defeat(v == 2); return v * 3 + 1; }
 """
 
 # non-nesting atoms
@@ -27,6 +28,8 @@ T_BASE = [
     "{ int[] t = [x, 2]; can[0] = t[1]; !truth_is_defeat(x == 0); }",
     "!deep(x);",
     "write(f(x));",
+    "write(!val(x));",
+    "x = (!val(x) + f(1)) % 4;",
 ]
 
 
@@ -59,7 +62,12 @@ T_BATCH = 8
 def family_T(tier):
     atoms = t_atoms()
     n = len(atoms)
-    bodies = [(i,) for i in range(n)] + [(i, j) for i in range(n) for j in range(n)]
+    nb = len(T_BASE)
+    if tier == 'thorough':
+        bodies = [(i,) for i in range(n)] + [(i, j) for i in range(n) for j in range(n)]
+    else:
+        # quick: all pairs in which at least one member is a base (non-nesting) atom
+        bodies = [(i,) for i in range(n)] + [(i, j) for i in range(n) for j in range(n) if i < nb or j < nb]
     if tier == 'thorough':
         red = list(range(len(T_BASE))) + [len(T_BASE) + k for k in (2, 3, 6)] + [2 * len(T_BASE) + 3, 3 * len(T_BASE) + 2]
         bodies += [(i, j, k) for i in red for j in red for k in red]
@@ -87,6 +95,41 @@ def build_T(chunk):
         funcs.append(f"empty @t{k}(int x) {{ int[] can = [7, 8]; try {{ {body} }} {h} {{ {T_HBODIES[hb]} }} "
                      f"write('z'); write(x); write(can[0]); write(can[1]); }}")
         calls.append(f'write("#{k}:"); @t{k}(x); writeln();')
+    return TT_PRELUDE + '\n'.join(funcs) + '\nempty @is_you(int x) {\n' + '\n'.join(calls) + '\n}\n'
+
+
+# ---------------------------------------------------------------------------
+# R: value-returning you-functions that return from inside a try (the return expression itself may defeat)
+# ---------------------------------------------------------------------------
+R_PRE = ["", "write('a');", "x += 1;", "preempt { write('q'); return 5; }", "!df(x);"]
+R_EXPR = ["!val(x)", "!val(x) + f(1)", "x", "!val(!val(x) / 3)", "f(!val(x))", "[!val(x), 7][0]"]
+R_HB = ["write('h');", "write('h'); return -1;", "return f(3);"]
+R_SHAPES = [
+    "int @r{k}(int x) {{ try {{ {pre} return {e}; }} {h} {{ {hb} }} return 9; }}",
+    "int @r{k}(int x) {{ for (int i = 0; i < 3; i += 1) {{ try {{ {pre} if (i == 0) {{ continue; }} return {e}; }} {h} {{ {hb} }} x += 1; }} return 9; }}",
+    "int @r{k}(int x) {{ int[] c = [4, 5]; try {{ int[] t = [x, 1]; {pre} return {e} + t[1]; }} {h} {{ {hb} }} return c[1]; }}",
+]
+
+
+def family_R(tier):
+    cases = []
+    for sh in range(len(R_SHAPES)):
+        for pre in range(len(R_PRE)):
+            for e in range(len(R_EXPR)):
+                for h in ('undo', 'stop'):
+                    for hb in range(len(R_HB)):
+                        cases.append((sh, pre, e, h, hb))
+    if tier == 'quick':
+        cases = [c for i, c in enumerate(cases) if i % 2 == 0 or c[2] == 0]
+    return [('R', cases[i:i + T_BATCH]) for i in range(0, len(cases), T_BATCH)]
+
+
+def build_R(chunk):
+    funcs = []
+    calls = []
+    for k, (sh, pre, e, h, hb) in enumerate(chunk):
+        funcs.append(R_SHAPES[sh].format(k=k, pre=R_PRE[pre], e=R_EXPR[e], h=h, hb=R_HB[hb]))
+        calls.append(f'write("#{k}:"); writeln(@r{k}(x));')
     return TT_PRELUDE + '\n'.join(funcs) + '\nempty @is_you(int x) {\n' + '\n'.join(calls) + '\n}\n'
 
 
@@ -248,6 +291,13 @@ P_FUNCS = [
     "empty !pf(int v) { write('('); preempt { write('!'); } !truth_is_defeat(v == 1); write(')'); }",
     "empty !pf(int v) { write('('); if (v > 0) { !pf(v - 1); } preempt { write('!'); } write(')'); }",
     "int !pf(int v) { write('('); preempt { write('!'); return 7; } write(')'); return v; }",
+    # the preempt block may sit anywhere in the function, even where it cannot be reached
+    "empty !pf(int v) { write('('); if (v == 9) { write('-'); } else { if (v == 8) { preempt { write('!'); } } } write(')'); }",
+    "empty !pf(int v) { write('('); if (v == 9) { write('-'); } else if (v == 8) { write('+'); } else { preempt { write('!'); } } write(')'); }",
+    "empty !pf(int v) { write('('); while (v == 9) { preempt { write('!'); } v += 1; } write(')'); }",
+    "empty !pf(int v) { write('('); for (int i = 7; i < v - 3; i += 1) { preempt { write('!'); } } write(')'); }",
+    "empty !pf(int v) { write('('); { { if (false) { preempt { write('!'); } } } } write(')'); }",
+    "empty !pf(int v) { write('('); for (;;) { if (v < 9) { break; } preempt { write('!'); } v -= 1; } write(')'); }",
 ]
 P_AFTER = [
     "",
